@@ -36,6 +36,14 @@ def _same_args(c, v):
     return h.kind == 'dict' and not h.items
 
 
+def _validated_first(c, tr, const):
+    val = calls(tr, 'S3Transfer._validate_all_known_args')
+    others = [index_of(tr, e) for e in tr if e.kind in ('ext', 'call') and not e.name.endswith('_validate_all_known_args')
+              and not e.name.startswith(('client_meta', 'client.', 'client_events')) or (e.kind == 'ext' and e.name.startswith('client.') and not e.name.startswith('client..'))]
+    return len(val) == 1 and c.engine.same_const_list(val[0].extra['env']['allowed'], S3T, const, c.new.st) \
+        and all(index_of(tr, val[0]) < i for i in others)
+
+
 def register(R):
     R.add_fields(LCFG, multipart_threshold=Int, max_concurrency=Int, multipart_chunksize=Int, num_download_attempts=Int, max_io_queue=Int,
                  valid=lambda v, ref: [v.f(ref, k) > 0 for k in ('multipart_threshold', 'max_concurrency', 'multipart_chunksize', 'num_download_attempts', 'max_io_queue')])
@@ -76,8 +84,10 @@ def register(R):
                 len(rn) == 1 and not rm and rn[0].extra['env']['current_filename'] is temp and rn[0].extra['env']['new_filename'] is c.a_filename
                 and index_of(tr, rn[0]) > index_of(tr, dl[0])), ['C06']),
             'size_discovered_with_the_users_extra_args': (B(
-                len(calls(tr, 'S3Transfer._object_size')) == 1 and _same_args(c, calls(tr, 'S3Transfer._object_size')[0].extra['env']['extra_args'])
+                len(calls(tr, 'S3Transfer._object_size')) == 1 and len(dl) == 1
+                and _same_args(c, calls(tr, 'S3Transfer._object_size')[0].extra['env']['extra_args'])
                 and _same_args(c, dl[0].extra['env']['extra_args'])), ['C15']),
+            'arguments_validated_against_the_download_allow_list_before_any_request': (B(_validated_first(c, tr, 'ALLOWED_DOWNLOAD_ARGS')), ['C15']),
         }
 
     def dl_raises(c):
